@@ -37,8 +37,8 @@ CLAIM = dict(
     note="level proof, PARTIAL. Proved: lexer/parser panic-freedom, fuel bound, span bounds (except the end-of-input "
          "rule, refuted), unbounded recursion depth, graph-layer corollaries. NOT proved, search only: stack exhaustion "
          "(found: Document::parse aborts on ~6k nested parentheses / ~15k nested list< in the harness build), "
-         "resolution.rs / package.rs / encoding.rs panic-freedom (the search found and re-found 9 panic sites and one "
-         "unbounded recursion, listed as known findings), wasmparser / wit-component / miette internals, allocation "
+         "resolution.rs / package.rs / encoding.rs panic-freedom (the search found twelve panic sites and one "
+         "unbounded recursion: six repaired by fix: commits, the rest listed as known findings), wasmparser / wit-component / miette internals, allocation "
          "failure, timeouts. Trusted: Coq kernel; the hand-written models (validated by correspondence); the C12 "
          "extraction + OCaml driver used for the correspondence; the Rust harness (supervisor, span walker).",
     technique="Coq proof (one outcome predicate pushed through every parser production with verified combinator "
